@@ -5,6 +5,41 @@ from ..builder import Canon
 from .. import rules_i as I, rules_g as G, frame as FR
 
 
+def tnorm(s, names=('pre_table',)):
+    """one notation T[i] for an element of the window table whether it is kept in a Vec (`index(new(), i)`) or in an
+    array (`pre_table[i]`, `var:pre_table=repeat{zero()}[i]`)"""
+    out = s
+    for nm in names:
+        out = re.sub(r'var:%s=repeat\{[^{}]*(?:\{[^{}]*\})?[^{}]*\}\[' % re.escape(nm), 'T[', out)
+        out = re.sub(r'(?<![\w:$.])(?:var:)?%s\[' % re.escape(nm), 'T[', out)
+    # index(new(), X) / index_mut(new(), X) -> T[X] (balanced)
+    for head in ('index_mut(new(), ', 'index(new(), '):
+        while head in out:
+            i = out.index(head)
+            j = i + len(head)
+            depth = 1
+            while j < len(out) and depth:
+                if out[j] in '([{':
+                    depth += 1
+                elif out[j] in ')]}':
+                    depth -= 1
+                j += 1
+            out = out[:i] + 'T[' + out[i + len(head):j - 1] + ']' + out[j:]
+    return out
+
+
+def table_names(fn):
+    """names of array-typed locals of points that receive element stores (the window table kept in an array)"""
+    out = set()
+    for b, i, s in fn.stmts():
+        if s['k'] == 'assign' and len(s['lhs']['p']) == 1 and isinstance(s['lhs']['p'][0], dict) and ('idx' in s['lhs']['p'][0] or 'cidx' in s['lhs']['p'][0]):
+            l = s['lhs']['l']
+            ty = fn.local_ty(l) or ''
+            if ty.startswith('[') and 'Point' in ty and fn.locals[l].get('name'):
+                out.add(fn.locals[l]['name'])
+    return tuple(sorted(out)) or ('pre_table',)
+
+
 def addition_chain(cx, rule, fn, table_local_create='new()', want=16, dbl=('point_dbl', 'point_double'), add=('point_add',)):
     """pre_table[k] = (k+1) * P : every entry is built from earlier entries by doublings/additions whose
     multiplicities add up to k+1 (abstract interpretation of the table construction in the integers)"""
@@ -16,18 +51,27 @@ def addition_chain(cx, rule, fn, table_local_create='new()', want=16, dbl=('poin
     why = ''
     dom = fn.dominators()
     stores = []
+    tn = table_names(fn)
     for b, i, s in fn.stmts():
         if s['k'] == 'assign' and s['lhs']['p'] and s['lhs']['p'][0] == 'deref' and len(s['lhs']['p']) == 1:
             tgt = cn.c(norm(P.local(s['lhs']['l'], b, i)))
             m = re.match(r'^index_mut\(new\(\), (\d+)\)$', tgt)
             if m:
-                stores.append((len(dom.get(b, ())), b, i, int(m.group(1)), I.shorten_vars(cn.c(norm(P.rvalue(s['rv'], b, i, 0))))))
+                stores.append((len(dom.get(b, ())), b, i, int(m.group(1)), tnorm(I.shorten_vars(cn.c(norm(P.rvalue(s['rv'], b, i, 0)))), tn)))
+        elif s['k'] == 'assign' and len(s['lhs']['p']) == 1 and isinstance(s['lhs']['p'][0], dict) and fn.locals[s['lhs']['l']].get('name') in tn:
+            pr = s['lhs']['p'][0]
+            k = pr.get('cidx')
+            if k is None and 'idx' in pr:
+                from ..prov import const_int as _ci
+                k = _ci(norm(P.local(pr['idx'], b, i)))
+            if k is not None:
+                stores.append((len(dom.get(b, ())), b, i, int(k), tnorm(I.shorten_vars(cn.c(norm(P.rvalue(s['rv'], b, i, 0)))), tn)))
     stores.sort()
     def val(x):
         x = x.strip()
         if x == '$self':
             return 1
-        m = re.match(r'^index\(new\(\), (\d+)\)$', x)
+        m = re.match(r'^T\[(\d+)\]$', x)
         if m:
             return mult.get(int(m.group(1)))
         return None
@@ -116,8 +160,8 @@ def sm2_scalar(cx):
     J_ = 'each(Range::Range{0, 16})'
     IDX = 'Shr($scalar[SubWithOverflow(3, %s).0], MulWithOverflow(SubWithOverflow(15, %s).0, 4).0)' % (I_, J_)
     tr = I.transfer(fn, F, 'Range::Range{0, 16}', ['r', 'index'], containing_call='point_add')
-    want_r = 'point_dbl(point_dbl(point_dbl(point_dbl(phi(point_add(index(new(), (BitAnd(SubWithOverflow(%s, 1).0, 15) as usize)), var:r@in) | var:r@in)))))' % IDX
-    cx.add('I-SCALAR', 'sm2/scalar_mul/step', tr is not None and tr.get('r') == want_r and tr.get('index') == IDX,
+    want_r = 'point_dbl(point_dbl(point_dbl(point_dbl(phi(point_add(T[(BitAnd(SubWithOverflow(%s, 1).0, 15) as usize)], var:r@in) | var:r@in)))))' % IDX
+    cx.add('I-SCALAR', 'sm2/scalar_mul/step', tr is not None and tnorm(tr.get('r') or '', table_names(fn)) == want_r and tr.get('index') == IDX,
            'per 4-bit window (most significant first): r = 16 * (r + T[(w-1) & 15] if w != 0 else r), w = (scalar[3-i] >> 4(15-j)) & 15', fn.loc(), {'got': tr})
     conds = loop_conds(fn, F, 'Range::Range{0, 16}', 'point_add') or []
     want = ['Ne(BitAnd(%s, 15), 0)' % IDX, 'Eq(AddWithOverflow(%s, 1).0, len($scalar))' % I_, 'Eq(AddWithOverflow(%s, 1).0, 16)' % J_]
@@ -149,8 +193,10 @@ def sm9_scalar(cx):
     if fn is not None:
         addition_chain(cx, 'I-CHAIN', fn, want=16)
         B = 'sm9_u256_get_booth($k, 5, each(rev(Range::Range{0, 52})))'
-        T = lambda b: 'index(new(), (SubWithOverflow(%s, 1).0 as usize))' % b
+        T = lambda b: 'T[(SubWithOverflow(%s, 1).0 as usize)]' % b
         tr = I.transfer(fn, F, 'rev(Range::Range{0, 52})', ['r', 'r_infinity', 'booth'])
+        if tr is not None and tr.get('r'):
+            tr['r'] = tnorm(tr['r'], table_names(fn))
         want = sorted(['G1.point_add(point_double_x5(var:r@in), %s)' % T(B), 'G1.point_sub(point_double_x5(var:r@in), %s)' % T('Neg(%s)' % B), T(B), 'point_double_x5(var:r@in)', 'var:r@in'])
         cx.add('I-SCALAR', 'sm9/point_mul/step', tr is not None and alts(tr['r']) == want and tr['booth'] == B and alts(tr['r_infinity']) == ['0', 'var:r_infinity@in'],
                '5-bit signed windows from the top: first non-zero digit loads T[d-1]; afterwards r = 32r (+ T[d-1] | - T[-d-1])', fn.loc(), {'got': tr})
